@@ -50,12 +50,25 @@ size, alignment and offsets (= C's layout rule computed in the harness where C d
 class whose value is the integer P reads at that place = `int.from_bytes` of the data at the C offset, named like the member it
 equals; both must dump to the same bytes with the data bytes at every leaf's place; a structure rebuilt from the parsed fields dumps
 alike; the Lean model's layout / read / write of the structure with `(enum T)` members must agree (correspondence).
+
+Numbering-walk probes (harness/v10_c12.py) for "members without an explicit value continue from the previous one (enum: previous + 1,
+flag: next higher power of two)" THROUGH EVERY PARSER AND IN EVERY ORDER: value lists whose explicit values go DOWN (`A = 5, B = 2, C, D`
+-> 3, 4), are NEGATIVE (`A = -3, B, C` -> -2, -1), REPEAT, JUMP to the type's limits and back, or make an implicit member land on an
+earlier value; flags after a power of two, a composite value, zero, a lower or a repeated value; values spelt as decimal / hex / octal /
+binary literals, sums, shifts, expressions over `#define` constants and (token parser only) over earlier members.  The same declaration
+is defined through every route that accepts its syntax - token parser: `load`, `load(deftype=DEF_CSTYLE)`, `loadfile`, two loads, the
+anonymous form (members become constants); LEGACY parser (`deftype=cstruct.DEF_LEGACY`): `load`, `loadfile`, two loads; compiled /
+interpreted / the parser's default - and per route the member table must be the C numbering (computed from the generator's integers,
+cross-checked with `oracle_numbering`), every member must dump its value's bytes, and every member value AND THE VALUES IN BETWEEN must
+parse (class call with bytes / bytearray / memoryview / BytesIO / file, `.read`, `.reads`, `cs.read`, `E(int)`; structure scalar, array
+element, bit-field) to an object with that integer value, equal to exactly the members declared with it, named like one of them (an
+enum value no member has: unnamed), dumping back to the bytes; Lean fold correspondence.
 """
 from __future__ import annotations
 
 import re
 
-from .. import common, impl, t3_c12, v4_c12, v8_c12, v9_c12
+from .. import common, impl, t3_c12, v4_c12, v8_c12, v9_c12, v10_c12
 from ..common import A, Case, Result, mkrng, parse_sexp, run_driver, sx
 
 BASES = {"uint8": (1, False), "int8": (1, True), "uint16": (2, False), "int16": (2, True), "uint32": (4, False), "int32": (4, True),
@@ -137,7 +150,15 @@ def run(env) -> Result:
                 "add_field, parsed through 8 read entry points: class size/alignment = underlying type's; same size, alignment, offsets as the "
                 "twin = C layout computed in the harness; every enum leaf an instance with the value the twin reads = int.from_bytes at the C "
                 "offset, named like its member; dumps identical to the twin's with the data bytes at every leaf; rebuilt structure dumps "
-                "alike; Lean model layout/read/write of the structure (correspondence). "
+                "alike; Lean model layout/read/write of the structure (correspondence); "
+                "numbering walk: value lists whose explicit values go down / are negative / repeat / jump / make an implicit member land on "
+                "an earlier value (flags: after powers of two, composite values, zero, lower values), spelt as literals in all bases, sums, "
+                "shifts, expressions over constants and (token parser) earlier members, the same declaration defined through every route - "
+                "token parser load / load(deftype=DEF_CSTYLE) / loadfile / two loads / anonymous declaration, legacy parser "
+                "(deftype=DEF_LEGACY) load / loadfile / two loads; compiled, interpreted, parser default: per route member table = C numbering "
+                "from the generator's integers (= oracle_numbering = Lean fold), every member dumps its value's bytes, every member value and "
+                "the values in between (+-1, midpoints, type limits) parse through 10 entry points and as structure scalar / array element / "
+                "bit-field to an object with that value equal to exactly its members, named like one, dumping back to the bytes. "
                 "distinct = (declaration, value); non-trivial = >= 2 members")
     dc = impl.dc()
     rnd = mkrng(env["seed"], "c12")
@@ -238,6 +259,8 @@ def run(env) -> Result:
     v8_c12.opmix_probes(mkrng(env["seed"], "c12-opmix"), res, viol, dc, tier, oracle_numbering, lines, metas)
     # enums/flags over every integer type inside structures, next to the twin structure with the underlying types (own PRNG stream)
     v9_c12.layout_probes(mkrng(env["seed"], "c12-layout"), res, viol, dc, tier, oracle_numbering, env)
+    # value lists in every order (down, negative, repeated, jumping) through every parser and load route (own PRNG stream)
+    v10_c12.numbering_probes(mkrng(env["seed"], "c12-numbering"), res, viol, dc, tier, oracle_numbering, lines, metas)
     # cross-class comparisons: never equal, whatever the kinds and values
     for _ in range(200 if tier == "quick" else 3000):
         (E1, f1, b1, _, i1), (E2, f2, b2, _, i2) = rnd.sample(classes, 2) if len(classes) >= 2 else (classes[0], classes[0])
